@@ -333,6 +333,15 @@ fn gen(seed: u64, family: &str, tier: Tier) -> Case {
             json!({"type": "combined", "models": ms})
         }
     };
+    // round 8 (a stream of its own): single-via k-shortest-paths under a solution-size limit, alone or beside an
+    // iteration limit - both sub-searches have a tree of their own. (Not walked turn by turn: judged on the outcome.)
+    if family == "ksp" {
+        let mut r8 = Rng::new(seed ^ fnv64("C10-ksp-size"));
+        if r8.chance(0.25) {
+            let sz = json!({"type": "solution_size", "limit": r8.below(14)});
+            w.termination = if r8.chance(0.5) { sz } else { json!({"type": "combined", "models": [sz, {"type": "iterations", "limit": r8.below(14)}]}) };
+        }
+    }
     let pc = PluginChoice { override_heavy: false, grid: false, lb: None, inject: false, rtree: false, edge_rtree: false };
     let nq = r.range(1, 10) as usize;
     let mut batch = vec![];
@@ -768,7 +777,10 @@ fn judge(case: &Case, obs: &Obs) -> (Vec<Violation>, BTreeMap<String, u64>, bool
                 }
             }
             if let (Some(l), Some(s)) = (lim.size, resp.get("tree_size_count").and_then(|x| x.as_u64())) {
-                if s > l {
+                // (the reported size is the sum over the trees of the result: single-via k-shortest-paths returns the
+                // tree of its forward and of its reverse search, each under the limit)
+                let trees = if case.world.algorithm["type"] == json!("ksp_single_via") { 2 } else { 1 };
+                if s > l.saturating_mul(trees) && case.world.algorithm["type"] != json!("yens") {
                     v.push(Violation { class: "tree-over-size-limit".into(), detail: format!("query {} returned a tree of {} under a solution-size limit of {}", qid, s, l) });
                 }
             }
@@ -936,6 +948,16 @@ fn judge(case: &Case, obs: &Obs) -> (Vec<Violation>, BTreeMap<String, u64>, bool
             continue;
         }
         if case.family == "ksp" {
+            // outcome (round 8, also where the limits are not walked turn by turn - size limits): a response that
+            // is not an error lists as many routes as the unlimited one - a stopped sub-search is an error, never a
+            // shorter list
+            if !terminated && resp.get("error").is_none() && unlimited.get("error").is_none() {
+                let n_routes = |r: &Value| r["route"].as_array().map_or(1, |a| a.len());
+                bump("ksp_route_counts_compared", 1);
+                if n_routes(&resp) != n_routes(&unlimited) {
+                    v.push(Violation { class: "ksp-route-count-differs-from-unlimited".into(), detail: format!("query {}: {} route(s) under limits {}, {} without", qid, n_routes(&resp), case.world.termination, n_routes(&unlimited)) });
+                }
+            }
             // single-via: a forward search, then a reverse search, each with a budget of its own; both are
             // walked with the reference model of the limits (the reverse search expands incoming edges: an
             // expansion call belongs to the destination of its edge)
